@@ -227,8 +227,8 @@ func diffRStep(s rmstep, e rev, rd *wsutil.Reader) string {
 			return fmt.Sprintf("callback %d: model %+v real %+v", i, c, g)
 		}
 	}
-	v := rd.VerifState()
-	if s.Err == "nil" || s.Err == "eof" {
+	v := readerState(rd)
+	if hooksOn && (s.Err == "nil" || s.Err == "eof") {
 		if v.HasFrame != s.St.Frame || int(v.RawN) != s.St.RawN || v.Fragmented != s.St.Frag || int(v.OpCode) != s.St.OpCode {
 			return fmt.Sprintf("struct: model %+v real %+v", s.St, v)
 		}
